@@ -74,7 +74,8 @@ DCbEnd ==
   /\ inCb > 0 /\ inCb' = inCb - 1 /\ pend' = RDrop(pend, cbSize) /\ delivered' = delivered + cbSize /\ cbSize' = 0 /\ inHand' = 0
   /\ UNCHANGED <<cur, full, freeN, buffNum, stop, handLo, hold, appender, remain, off, entered, copied, doneBytes, atCleanup>>
 DShrink(num) ==            \* "ap.b.shrink": more than MinB buffers -> delete this one
-  /\ hold /\ inCb = 0 /\ buffNum > MinB /\ buffNum' = buffNum - 1 /\ num = buffNum' /\ hold' = FALSE
+  \* (when a buffer is given back to the heap is policy: the code keeps MinB)
+  /\ hold /\ inCb = 0 /\ buffNum' = buffNum - 1 /\ num = buffNum' /\ hold' = FALSE
   /\ UNCHANGED <<cur, full, freeN, stop, inHand, handLo, inCb, appender, remain, pend, off, entered, copied, delivered, doneBytes, atCleanup, cbSize>>
 DRecycle(freeLen) ==       \* "ap.b.recycle" (the decision not to delete was taken earlier, under buff_num_mutex_)
   /\ hold /\ inCb = 0 /\ freeN' = freeN + 1 /\ freeLen = freeN' /\ hold' = FALSE
@@ -96,6 +97,8 @@ CallbacksNeverOverlap == inCb <= 1
 Conservation == delivered + Sum(full) + cur.n + inHand = copied /\ copied + remain = entered /\ RLen(pend) = entered - delivered
 BuffAccounting == /\ buffNum = freeN + Len(full) + (IF cur.has THEN 1 ELSE 0) + (IF hold THEN 1 ELSE 0)
                   /\ MinB <= buffNum /\ buffNum <= MaxB
+\* the same without the lower bound (how many idle buffers are retained is not part of C10): used for recorded executions
+BuffAccountingLoose == /\ buffNum = freeN + Len(full) + (IF cur.has THEN 1 ELSE 0) + (IF hold THEN 1 ELSE 0) /\ buffNum <= MaxB
 NoEmptyBlocks == \A i \in 1..Len(full) : full[i].n > 0
 \* order and contiguity: the undelivered buffer in hand, the full buffers and the current buffer hold consecutive pieces of the
 \* logical stream, starting at the first undelivered byte
